@@ -1,0 +1,9 @@
+//go:build verif
+
+package geohash
+
+// VerifInterleave64 / VerifDeinterleave64 expose the bit tricks to the verification harness
+// (differential execution against the Lean model); build tag verif only.
+func VerifInterleave64(xlo, ylo uint32) uint64 { return interleave64(xlo, ylo) }
+
+func VerifDeinterleave64(v uint64) (uint32, uint32) { return deinterleave64(v) }
